@@ -236,8 +236,8 @@ GEOMETRIES = [(14, 5), (14, 5), (14, 6), (12, 5), (0, 1), (0, 2), (1, 3), (3, 2)
 
 def gen_bins(rng, tier):
     cases = []
-    n_bai = 400 if tier == 'quick' else 12000
-    n_csi = 700 if tier == 'quick' else 20000
+    n_bai = 400 if tier == 'quick' else 6000
+    n_csi = 700 if tier == 'quick' else 9000
     for _ in range(n_bai):
         b1, e1 = interval(rng, 14, 5, 40)
         b2, e2 = related(rng, b1, e1, 14, 5, 40)
@@ -324,7 +324,7 @@ def gen_cigar(rng):
 
 def gen_recs(rng, tier):
     cases = []
-    n = 800 if tier == 'quick' else 30000
+    n = 800 if tier == 'quick' else 12000
     for _ in range(n):
         cg = gen_cigar(rng)
         r = rng.random()
